@@ -49,4 +49,57 @@ C16_Holds(c, in, o) ==
                                            => SameId(o.tname[i], in.binds[i][1])
     [] c = "compiles" -> o.compiled
 C16_Fail(in, o) == { c \in C16_Conj : ~C16_Holds(c, in, o) }
+
+(***************************************************************************)
+(* C08  Module mode: the trait's methods are exactly the module's          *)
+(*      non-private functions.                                             *)
+(*  in : [truth: names of the functions declared directly in the module    *)
+(*        with a visibility qualifier and a body, in source order;         *)
+(*        ids: what each of them returns]                                  *)
+(*  o  : [expanded, mnames: method names of the emitted trait, in order;   *)
+(*        compiled: module + a client in the PARENT scope that names the   *)
+(*        trait by the requested name; reached: what the client's calls of *)
+(*        every expected method returned]                                  *)
+(***************************************************************************)
+C08_Conj == {"expands", "methods", "compiles", "reach"}
+C08_Holds(c, in, o) ==
+  CASE c = "expands"  -> o.expanded
+    [] c = "methods"  -> o.expanded => o.mnames = in.truth
+    [] c = "compiles" -> o.compiled
+    [] c = "reach"    -> o.compiled => o.reached = in.ids
+C08_Fail(in, o) == { c \in C08_Conj : ~C08_Holds(c, in, o) }
+
+(***************************************************************************)
+(* C02  Append-only: the annotated fn / mod / impl items are emitted       *)
+(*      unchanged.  Pure token relations on interned token ids.            *)
+(*  Reading: a token's identity is its kind and text; the spacing hint of  *)
+(*  punctuation is not part of it where the macro legitimately re-parses   *)
+(*  (signatures: `Option<&T>` is re-emitted with a free-standing `<`), but *)
+(*  it is inside the opaque function body, where a lost joint flag would   *)
+(*  tear operators like `&&` or `..=` apart ("body-spacing").              *)
+(*  in : [kind \in {"fn","mod","impl"}, toks: the input item,              *)
+(*        sp: the same with spacing, bodyFrom: index of the fn body group, *)
+(*        close: index of the module's closing brace (mod),                *)
+(*        keep: for impl blocks the tokens that must open the output:      *)
+(*              attributes (minus async_trait, which entrait moves) ++     *)
+(*              `unsafe`? ++ `impl` ++ self type ++ the brace group]       *)
+(*  o  : [expanded (the macro accepted the item), out / outsp: output      *)
+(*        tokens, closeOut: index in `out` of the brace matching the one   *)
+(*        that opens the module body, 0 if none]                           *)
+(* The property speaks about accepted items only.                          *)
+(***************************************************************************)
+C02_Conj == {"fn-prefix", "body-spacing", "mod-prefix", "mod-brace", "impl-beside"}
+C02_Holds(c, in, o) ==
+  CASE c = "fn-prefix"   -> o.expanded /\ in.kind = "fn" => IsPrefix(in.toks, o.out)
+    [] c = "body-spacing" -> o.expanded /\ in.kind = "fn" =>
+                               /\ Len(o.outsp) >= Len(in.sp)
+                               /\ SubSeq(o.outsp, in.bodyFrom, Len(in.sp)) = SubSeq(in.sp, in.bodyFrom, Len(in.sp))
+    \* everything up to the closing brace is the input, unaltered ...
+    [] c = "mod-prefix"  -> o.expanded /\ in.kind = "mod" =>
+                               /\ Len(o.out) >= in.close - 1
+                               /\ SubSeq(o.out, 1, in.close - 1) = SubSeq(in.toks, 1, in.close - 1)
+    \* ... and what is generated sits at the end of the module (before its own closing brace) or after it
+    [] c = "mod-brace"   -> o.expanded /\ in.kind = "mod" => o.closeOut >= in.close
+    [] c = "impl-beside" -> o.expanded /\ in.kind = "impl" => IsPrefix(in.keep, o.out)
+C02_Fail(in, o) == { c \in C02_Conj : ~C02_Holds(c, in, o) }
 =============================================================================
